@@ -149,7 +149,7 @@ def obligations(tier: str):
         add("multi_tracker", "multi_tracker_3obj", objectives=3, n=3, table=2)
     for alg in ("rs", "hc", "1p1"):
         add("search", f"search_{alg}", alg=alg, budget=5 if T else 4, neigh=2)
-    add("search", "search_gp", alg="gp", budget=5 if T else 3, pop=2, table=3 if T else 2)
+    add("search", "search_gp", alg="gp", budget=4 if T else 3, pop=2, table=3 if T else 2)  # budget 5 x table 3: > 12000 paths, not exhausted in 2000 s
     if T:
         add("search", "search_gp_tournament", alg="gp", budget=3, pop=2, table=2, tournament=True)
     return obs
